@@ -10,6 +10,7 @@ MODELLED_MOTIONS = ["vi-forward-char", "vi-backward-char", "vi-forward-word", "v
 # typed as they are (text objects of the vi-opp keymap, find/till with their argument in a second read, %, ge)
 RAW_MOTIONS = [[b"iw"], [b"aw"], [b"iW"], [b"aW"], [b"i\""], [b"a\""], [b"i'"], [b"a'"], [b"i("], [b"a("], [b"i["], [b"i{"], [b"a{"],
                [b"ia"], [b"aa"], [b"%"], [b"ge"], [b"f", b"a"], [b"F", b"o"], [b"t", b" "], [b"T", b"("], [b"f", b"."], [b"t", b"z"]]
+MB_TEXTS = ["héllo wörld foo", "日本語 テキスト です", "naïve (café) \"crème\"", "a é b"]
 TEXTS = ["hello world foo", "foo(bar, baz) qux", "say \"hi there\" now", "a.b-c d", "x", "  two  spaces  ", "{a [b] (c)} 'q r'",
          "one two\nthree four", "end."]
 
@@ -33,8 +34,9 @@ def check(rep, tier, seed):
     n = 300 if tier == "quick" else 8000
     sess, pairs = [], []
     for i in range(n):
-        t = rnd.choice(TEXTS)
-        if "\n" in t:
+        t = rnd.choice(TEXTS + MB_TEXTS) if rnd.random() < 0.8 else rnd.choice(MB_TEXTS)
+        rc = "set blink-matching-paren on\n" if rnd.random() < 0.3 else ""
+        if "\n" in t or any(ord(c) > 127 for c in t):
             start, hist = [("previous-history",)], [t]
         else:
             start, hist = E.type_text(t), None
@@ -63,8 +65,8 @@ def check(rep, tier, seed):
                 kind = "visual " + kind
             else:
                 tails = ([("vi-delete-to",)] + m, [("vi-yank-to",)] + m)
-        a = {"vi": True, "hist": hist, "cmds": prefix + tails[0], "kind": kind}
-        b = {"vi": True, "hist": hist, "cmds": prefix + tails[1], "kind": kind}
+        a = {"vi": True, "hist": hist, "cmds": prefix + tails[0], "kind": kind, "rc": rc}
+        b = {"vi": True, "hist": hist, "cmds": prefix + tails[1], "kind": kind, "rc": rc}
         pairs.append((len(sess), len(sess) + 1, len(prefix)))
         sess += [a, b]
     out = E.run(sess)
@@ -110,7 +112,7 @@ def check(rep, tier, seed):
         "rule": "pairs of sessions from identical states (typed text or a multi-line history entry, ESC, 0-3 movements): d<motion> vs "
                 "y<motion>, for motions by command name with counts (h l w b e W B E 0 $ ^), text objects and find/till/%%/ge typed raw "
                 "(iw aw iW aW i\" a\" i' a' i( a( i[ i{ a{ ia aa f/F/t/T<c> %% ge), visual mode (v<motion>d / v<motion>y) and dd/yy; "
-                "non-trivial = the delete changed the buffer (distinct buffer, cursor, motion)",
+                "30%% of the pairs with `set blink-matching-paren on`; buffers include multi-byte text (from history); non-trivial = the delete changed the buffer (distinct buffer, cursor, motion)",
         "samples": [{"cmds": [c if len(c) > 1 else c[0] for c in sess[i]["cmds"][-4:]], "kind": sess[i]["kind"]} for i in (0, 2)],
         "motion_kinds": kinds,
         "correspondence": {"cases": sum(1 for s in sess if s.get("modelled", True)), "mismatches": len(mism)},
